@@ -10,7 +10,7 @@ import (
 
 func init() {
 	props["C07"] = c07
-	floors["C07"] = map[string]int{"C07.R1": 5, "C07.R2": 4, "C07.R3": 4, "C07.R4": 1, "C07.R5": 4}
+	floors["C07"] = map[string]int{"C07.R1": 6, "C07.R2": 4, "C07.R3": 4, "C07.R4": 2, "C07.R5": 4}
 }
 
 // wgCall reports whether c is p.conns.<method>() on the Proxy's wait group.
@@ -74,6 +74,19 @@ func c07(r *Report) {
 		// nothing that can return or block precedes them
 		r.Decide("path", "(*M.Proxy).handleLoop: defer conns.Done() in the entry block", done, "registered before any exit", "the handler does not release the wait group on every exit: Close blocks forever (or returns early)", loop.Pos())
 		r.Decide("path", "(*M.Proxy).handleLoop: defer conn.Close() in the entry block", closed, "registered before any exit", "the handler does not close its connection on every exit", loop.Pos())
+		// deferred calls run last-in first-out: Close must be registered after Done so that it runs before it
+		var dDone, dClose ssa.Instruction
+		for _, c := range calls(loop) {
+			if d, ok := c.(*ssa.Defer); ok {
+				if wgCall(d, "Done") {
+					dDone = d
+				}
+				if calleeName(d) == "(net.Conn).Close" && d.Call.Value == ssa.Value(loop.Params[1]) {
+					dClose = d
+				}
+			}
+		}
+		r.Decide("path", "(*M.Proxy).handleLoop: the connection is closed before the wait group is released", dDone != nil && dClose != nil && G(loop).Before(dDone, dClose), "defer Done() is registered before defer conn.Close(), so Close runs first", "conns.Done() runs before conn.Close(): Proxy.Close can return while the connection is still open", loop.Pos())
 		// Close: close(p.closing) before Wait
 		var closeCh, wait ssa.Instruction
 		for _, c := range calls(cl) {
@@ -268,6 +281,31 @@ func c07(r *Report) {
 
 	r.Guard("C07.R4", "an exchange in flight when shutdown begins is answered with connection-close and ends the connection", func() {
 		closeDecision(r, handle, "p.Closing()")
+		// shutdown is sampled after the last modifier ran (a shutdown that begins inside the
+		// response modifier must still mark the response close)
+		g := G(handle)
+		isClosing := func(i ssa.Instruction) bool {
+			if _, ok := isCall(i, "(*M.Proxy).Closing"); ok {
+				return true
+			}
+			// a path on which the response is already marked close needs no shutdown test
+			if st, ok := i.(*ssa.Store); ok {
+				if fa, ok := st.Addr.(*ssa.FieldAddr); ok && fieldObj(fa).Name() == "Close" && fa.X.Type().String() == "*net/http.Response" {
+					b, isB := constBool(st.Val)
+					return isB && b
+				}
+			}
+			return false
+		}
+		isWrite := func(i ssa.Instruction) bool { _, ok := isCall(i, nResWrite); return ok }
+		for _, c := range calls(handle) {
+			if !isResMod(c) {
+				continue
+			}
+			p := g.PathTo([]ssa.Instruction{c}, false, isClosing, isWrite)
+			r.Paths++
+			r.Decide("path", "(*M.Proxy).handle: shutdown sampled between the response modifier and the write", p == nil, "every path from ModifyResponse to the write tests Closing()", "the close decision is taken before the response modifier: a shutdown that starts inside it yields a response without connection-close", c.Pos())
+		}
 	})
 
 	r.Guard("C07.R5", "an exchange whose request modifier has started is not cut by shutdown", func() {
